@@ -148,7 +148,7 @@ def check_writer(prog):
     # every path through the Val::Str arm passes an escaper call before the function returns (must-pass-through)
     str_start = None
     for u, v, fct in f._cond_edge_list():
-        if strip(fct[0])[:2] == ("discr", ("param", 1)) and fct[1] == ("variant", "Str") and str_start is None:
+        if strip(fct[0])[:2] == ("discr", ("param", f.param(name="val", ty="jrsonnet_evaluator::val::Val") or 1)) and fct[1] == ("variant", "Str") and str_start is None:
             str_start = v
     if str_start is None:
         problems.append("no Val::Str edge found in the writer")
@@ -218,6 +218,7 @@ def check_writer(prog):
         obs.append(bad(RULE, key, site(f), "no variant switch on Val with a Func edge found"))
     # (c) indentation state restored
     key = "writer:padding-restored"
+    PAD = f.param(name="cur_padding", ty="&mut alloc::string::String", nth=1) or 3
     pushes = []
     truncs = []
     for b, t in f.calls():
@@ -226,13 +227,13 @@ def check_writer(prog):
         c = t.get("res") or t.get("fn") or ""
         if c == "alloc::string::String::push_str":
             d = strip(f.desc_op(t["args"][0]))
-            if d == ("param", 3):
+            if d == ("param", PAD):
                 a1 = strip(f.desc_op(t["args"][1]))
                 if contains(a1, lambda x: x[0] == "field" and x[2] == "padding"):
                     pushes.append(b)
         if c == "alloc::string::String::truncate":
             d = strip(f.desc_op(t["args"][0]))
-            if d == ("param", 3):
+            if d == ("param", PAD):
                 truncs.append(b)
     problems = []
     if len(pushes) < 2:
